@@ -2,7 +2,7 @@
 import p_c07, evloopsim
 
 ID = "C09"
-LEAN_TARGETS = ["DVP.Properties.C09"]
+LEAN_TARGETS = ["DVP.Properties.C09", "DVP.Findings.C09"]
 PROPERTY_FILES = ["DVP/Properties/C09.lean"]
 RULE = p_c07.RULE + " Focus: mixes of terminal and non-terminal events; stop time, last state, nothing beyond, status, dense output order, continuation to the requested end.  Whole calls with events (operation sequences: terminal stops, continuation, faults, resets) are replayed through the Lean model DV.LoopEv."
 ASSUMPTIONS = p_c07.ASSUMPTIONS
